@@ -79,7 +79,7 @@ def specs_for(ctx, T, rng: random.Random):
     pair_bgs = [bytes([0xFF]) * n, bytes(n)] + extra[:1]
     # (only on the first class of each codec family: the others share the code)
     if n <= 8 and _representative(T):
-        for bg in pair_bgs[: ctx.n(2, 3)]:
+        for bg in pair_bgs[: ctx.n(1, 3)]:
             for pos in range(n - 1):
                 yield from D.pair_sweep(n, pos, pos + 1, bg)
     if n == 4:
@@ -177,6 +177,8 @@ def respond_roundtrip(ctx, T, spec) -> bool:
         v = T.from_knx(p)
     except Exception:  # noqa: BLE001
         return False
+    if roundtrip(ctx, T, spec) == "fail":
+        return True  # same root cause as the codec-level failure just recorded in its bucket
     inp = D.case_of(T, spec, path="respond")
     label = D.codec_label(T)
     xknx = XKNX()
